@@ -37,6 +37,9 @@ type desc struct {
 	ips      []string
 	rootable bool // may be placed in the root pool
 	leaf     bool
+	// key identifiers are hints for path building, never a criterion of validity (RFC 5280 4.2.1.1-2):
+	ski int // subject key id: 0 derived from the certified key, 1 absent, 2 an unrelated value
+	aki int // authority key id: 0 derived from the signing key, 1 absent, 2 an unrelated value, 3 the key id of kB (another CA of the universe)
 }
 
 type cert struct {
@@ -82,7 +85,7 @@ func build(d desc) (*cert, error) {
 		SignatureAlgorithm:    gx509.SM2WithSM3,
 		BasicConstraintsValid: d.hasBC,
 		IsCA:                  d.isCA,
-		SubjectKeyId:          ski(d.subjKey),
+		SubjectKeyId:          [][]byte{ski(d.subjKey), nil, []byte("unrelated-subject-key-id")}[d.ski],
 		DNSNames:              d.dns,
 		ExtKeyUsage:           d.eku,
 	}
@@ -110,7 +113,7 @@ func build(d desc) (*cert, error) {
 	}
 	// the parent template supplies the issuer name and the authority key id; key ids are a function
 	// of the key everywhere, so the authority key id names the key that actually signed
-	parent := &gx509.Certificate{Subject: pkix.Name{CommonName: d.issuer, Organization: []string{"verif"}}, SubjectKeyId: ski(d.signKey)}
+	parent := &gx509.Certificate{Subject: pkix.Name{CommonName: d.issuer, Organization: []string{"verif"}}, SubjectKeyId: [][]byte{ski(d.signKey), nil, []byte("unrelated-authority-key-id"), ski(kB)}[d.aki]}
 	der, err := gx509.CreateCertificate(tmpl, parent, &keyOf(d.subjKey).PublicKey, keyOf(d.signKey))
 	if err != nil {
 		return nil, fmt.Errorf("create %s: %v", d.id, err)
@@ -158,6 +161,7 @@ func buildUniverse() (*universe, error) {
 		r1.with(func(d *desc) { d.id = "R1-pathlen1"; d.pathLen = 1 }),
 		ca("R2", "R2", "R2", kR2, kR2).with(func(d *desc) { d.rootable = true }),
 		ca("R1-otherkey", "R1", "R1", kX, kX).with(func(d *desc) { d.rootable = true }),
+		r1.with(func(d *desc) { d.id = "R1-noSKI"; d.ski = 1 }),
 	}
 	for _, d := range rootDescs {
 		if err := add(&u.roots, d); err != nil {
@@ -187,6 +191,9 @@ func buildUniverse() (*universe, error) {
 		ca("C", "C", "B", kC, kB),
 		ca("C-byA", "C", "A", kC, kA),
 		ca("X-R1-as-intermediate", "R1", "R2", kR1, kR2), // cross certificate of R1 issued by R2
+		a.with(func(d *desc) { d.id = "A-noSKI"; d.ski = 1 }),
+		a.with(func(d *desc) { d.id = "A-otherSKI"; d.ski = 2 }),
+		a.with(func(d *desc) { d.id = "A-noAKI"; d.aki = 1 }),
 	}
 	for _, d := range interDescs {
 		if err := add(&u.inters, d); err != nil {
@@ -214,6 +221,9 @@ func buildUniverse() (*universe, error) {
 			d.id = "L-byA-both"
 			d.eku = []gx509.ExtKeyUsage{gx509.ExtKeyUsageServerAuth, gx509.ExtKeyUsageClientAuth}
 		}),
+		lA.with(func(d *desc) { d.id = "L-byA-noAKI"; d.aki = 1 }),
+		lA.with(func(d *desc) { d.id = "L-byA-otherAKI"; d.aki = 2 }),
+		lA.with(func(d *desc) { d.id = "L-byA-AKIofB"; d.aki = 3 }),
 		lA.with(func(d *desc) { d.id = "L-byA-wildcard"; d.dns = []string{"*.example.test"} }),
 		lA.with(func(d *desc) { d.id = "L-byA-ip"; d.dns = nil; d.ips = []string{"10.0.0.1"} }),
 		lA.with(func(d *desc) {
